@@ -384,6 +384,52 @@ func specialFamily() []*pg.Program {
 	return cff.Flow(ctx)
 }
 `)
+	raw("predicate-named-bool", "reject", `type enabled_ID bool
+
+func run_ID(ctx context.Context, on enabled_ID) (int, error) {
+	var x int
+	err := cff.Flow(ctx, cff.Results(&x),
+		cff.Task(func() int { return 1 }, cff.Predicate(func() enabled_ID { return on })),
+	)
+	return x, err
+}
+`)
+	raw("params-same-unnamed-type-twice", "reject", `func run_ID(ctx context.Context, first []string, second []string) (int, error) {
+	var x int
+	err := cff.Flow(ctx, cff.Params(first, second), cff.Results(&x), cff.Task(func(s []string) int { return len(s) }))
+	return x, err
+}
+`)
+	raw("params-same-map-type-twice", "reject", `func run_ID(ctx context.Context, a map[string]int, b map[string]int) (int, error) {
+	var x int
+	err := cff.Flow(ctx, cff.Params(a, b), cff.Results(&x), cff.Task(func(m map[string]int) int { return len(m) }))
+	return x, err
+}
+`)
+	raw("types-spelled-differently", "accept", `func run_ID(ctx context.Context) (int, error) {
+	var x int
+	err := cff.Flow(ctx, cff.Results(&x),
+		cff.Task(func() func(delta int) int { return func(d int) int { return d + 1 } }),
+		cff.Task(func() any { return 2 }),
+		cff.Task(func(f func(int) int, v interface{}) int { return f(v.(int)) }),
+	)
+	return x, err
+}
+`)
+	raw("very-long-line", "accept", "const blob_ID = \""+strings.Repeat("x", 70000)+"\"\n\n"+`func run_ID(ctx context.Context) (int, error) {
+	var x int
+	err := cff.Flow(ctx, cff.Results(&x), cff.Task(func() int { return len(blob_ID) }))
+	return x, err
+}
+
+func after_ID() int { return len(blob_ID) }
+`)
+	raw("results-same-type-twice", "accept", `func run_ID(ctx context.Context) (int, int, error) {
+	var x, y int
+	err := cff.Flow(ctx, cff.Results(&x, &y), cff.Task(func() int { return 3 }))
+	return x, y, err
+}
+`)
 	raw("slice-noindex-sliceend", "accept", `func run_ID(ctx context.Context, s []int) error {
 	return cff.Parallel(ctx, cff.Slice(func(v int) {}, s, cff.SliceEnd(func() {})))
 }
@@ -398,6 +444,11 @@ func staticProgs(prop string, th bool) []*pg.Program {
 	case "C14":
 		ps = append(ps, graphFamily(th)...)
 		ps = append(ps, asgFamily()...)
+		for _, p := range specialFamily() {
+			if p.Raw != "" && p.Expect != "" && !strings.Contains(p.Fam, "nested-directive") {
+				ps = append(ps, p)
+			}
+		}
 	case "C13", "C20":
 		for _, p := range graphFamily(false) {
 			if p.Flow != nil {
